@@ -127,6 +127,7 @@ def metric_entries():
 
 def cx_t(it, name, shape):
     o = it.new_tobj("tensor", T.stack0(T.sym(name + "r"), T.sym(name + "i")), (2,) + tuple(shape), "param:" + name)
+    o.fw = 64  # the operands the properties quantify over are float64
     return VTens(o)
 
 
